@@ -137,18 +137,26 @@ where
         }
     }
 
+    /// Insert the record.
+    ///
+    /// `fetch` is the id of the in-flight fetch that produced the record, if any: the result of a fetch is dropped
+    /// (`false` is returned) unless that fetch is still the registered one for the key. An explicit insert that
+    /// completed while the fetch was running has taken the in-flight entry and answered its waiters; deciding that
+    /// here, in the same critical section as the insertion, leaves no window in which the stale result could still
+    /// overwrite the newer value.
     #[expect(clippy::type_complexity)]
     fn emplace(
         &mut self,
         record: Arc<Record<E>>,
+        fetch: Option<usize>,
         garbages: &mut Vec<(Event, Arc<Record<E>>)>,
         notifiers: &mut Vec<Notifier<Option<RawCacheEntry<E, S, I>>>>,
-    ) {
-        *notifiers = self
-            .inflights
-            .lock()
-            .take(record.hash(), record.key(), None)
-            .unwrap_or_default();
+    ) -> bool {
+        let taken = self.inflights.lock().take(record.hash(), record.key(), fetch);
+        if fetch.is_some() && taken.is_none() {
+            return false;
+        }
+        *notifiers = taken.unwrap_or_default();
 
         if record.properties().phantom().unwrap_or_default() {
             if let Some(old) = self.indexer.remove(record.hash(), record.key()) {
@@ -168,7 +176,7 @@ where
             record.inc_refs(notifiers.len() + 1);
             garbages.push((Event::Remove, record));
             self.metrics.memory_insert.increase(1);
-            return;
+            return true;
         }
 
         let weight = record.weight();
@@ -212,6 +220,7 @@ where
             std::cmp::Ordering::Less => self.metrics.memory_usage.decrease((old_usage - self.usage) as _),
             std::cmp::Ordering::Equal => {}
         }
+        true
     }
 
     #[cfg_attr(feature = "tracing", fastrace::trace(name = "foyer::memory::raw::shard::remove"))]
@@ -555,7 +564,8 @@ where
         value: E::Value,
         properties: E::Properties,
     ) -> RawCacheEntry<E, S, I> {
-        self.insert_with_properties_inner(key, value, properties, Source::Outer)
+        self.insert_with_properties_inner(key, value, properties, Source::Outer, None)
+            .expect("an explicit insert is never dropped")
     }
 
     fn insert_with_properties_inner(
@@ -564,7 +574,8 @@ where
         value: E::Value,
         mut properties: E::Properties,
         source: Source,
-    ) -> RawCacheEntry<E, S, I> {
+        fetch: Option<usize>,
+    ) -> Option<RawCacheEntry<E, S, I>> {
         let hash = self.inner.hash_builder.hash_one(&key);
         let weight = (self.inner.weighter)(&key, &value);
         if !(self.inner.filter)(&key, &value) {
@@ -582,23 +593,28 @@ where
             hash,
             weight,
         }));
-        self.insert_inner(record, source)
+        self.insert_inner(record, source, fetch)
     }
 
     #[doc(hidden)]
     #[cfg_attr(feature = "tracing", fastrace::trace(name = "foyer::memory::raw::insert_piece"))]
     pub fn insert_piece(&self, piece: Piece<E::Key, E::Value, E::Properties>) -> RawCacheEntry<E, S, I> {
-        self.insert_inner(piece.into_record(), Source::Memory)
+        self.insert_inner(piece.into_record(), Source::Memory, None)
+            .expect("an explicit insert is never dropped")
     }
 
     #[cfg_attr(feature = "tracing", fastrace::trace(name = "foyer::memory::raw::insert_inner"))]
-    fn insert_inner(&self, record: Arc<Record<E>>, source: Source) -> RawCacheEntry<E, S, I> {
+    fn insert_inner(&self, record: Arc<Record<E>>, source: Source, fetch: Option<usize>) -> Option<RawCacheEntry<E, S, I>> {
         let mut garbages = vec![];
         let mut notifiers = vec![];
 
-        self.inner.shards[self.shard(record.hash())]
+        let inserted = self.inner.shards[self.shard(record.hash())]
             .write()
-            .with(|mut shard| shard.emplace(record.clone(), &mut garbages, &mut notifiers));
+            .with(|mut shard| shard.emplace(record.clone(), fetch, &mut garbages, &mut notifiers));
+        if !inserted {
+            // The result of a fetch that an explicit insert has overtaken.
+            return None;
+        }
 
         // Deallocate data out of the lock critical section.
         //
@@ -627,12 +643,12 @@ where
             })));
         }
 
-        RawCacheEntry {
+        Some(RawCacheEntry {
             record,
             pipe: self.pipe.clone(),
             inner: self.inner.clone(),
             source,
-        }
+        })
     }
 
     /// Evict all entries in the cache and offload them into the disk cache via the pipe if needed.
@@ -1302,7 +1318,7 @@ where
                     match optional_fetch.poll_unpin(cx) {
                         Poll::Pending => return Poll::Pending,
                         Poll::Ready(Ok(Some(target))) => {
-                            handle_try! {*this.state, handle_target(target, this.key, this.cache, Source::Disk) }
+                            handle_try! {*this.state, handle_target(target, this.key, this.cache, Source::Disk, *this.id) }
                         }
                         Poll::Ready(Ok(None)) => {
                             handle_try! { *this.state, try_set_required(required_fetch_builder, this.ctx, *this.id, *this.hash, this.key.as_ref().unwrap(), &this.inflights, Ok(None)) }
@@ -1319,7 +1335,7 @@ where
                     match required_fetch.poll_unpin(cx) {
                         Poll::Pending => return Poll::Pending,
                         Poll::Ready(Ok(target)) => {
-                            handle_try! { *this.state, handle_target(target, this.key, this.cache, Source::Outer) }
+                            handle_try! { *this.state, handle_target(target, this.key, this.cache, Source::Outer, *this.id) }
                         }
                         Poll::Ready(Err(e)) => {
                             handle_try! { *this.state, handle_error(e, *this.id, *this.hash, this.key.as_ref().unwrap(), this.inflights) }
@@ -1400,14 +1416,16 @@ where
         key: &mut Once<E::Key>,
         cache: &RawCache<E, S, I>,
         source: Source,
+        id: usize,
     ) -> Try<E, S, I, C> {
+        // The result is inserted only if this fetch is still the registered one for the key.
         match target {
             FetchTarget::Entry { value, properties } => {
                 let key = key.take().unwrap();
-                cache.insert_with_properties_inner(key, value, properties, source);
+                cache.insert_with_properties_inner(key, value, properties, source, Some(id));
             }
             FetchTarget::Piece(piece) => {
-                cache.insert_piece(piece);
+                cache.insert_inner(piece.into_record(), Source::Memory, Some(id));
             }
         }
         Try::Ready
